@@ -1,6 +1,7 @@
 /- Driver/Id3Convert.lean — ID3v1 codec (MakeID3v1 / ParseID3v1) and update_to_v23 / update_to_v24 -/
 import MutagenModel.Model.Id3v1
 import MutagenModel.Model.Id3Convert
+import MutagenModel.Model.Id3Load
 import Driver.Util
 namespace Driver
 open Mutagen Mutagen.Id3v1
@@ -106,6 +107,21 @@ def id3convOp (a : Args) : String :=
   match a.str "op" with
   | "to23" => "ok v=" ++ showTag 0 (updateToV23 t)
   | "to24" => "ok v=" ++ showTag 0 (updateToV24 t)
+  -- the ID3v1 merge and `translate` of `ID3.load`: `tag` = what `_read` made of the body, `comms` = the COMM frames
+  -- (`desc/firsttext` joined by ";", "e" = none; a COMM without text: `desc/-`), `vmaj`, `block` = the ID3v1 block (hex, "-" = none),
+  -- `translate` = 0 (False) / 3 / 4
+  | "load" =>
+    let comms : List Mutagen.Id3Load.Comm :=
+      if a.str "comms" "e" == "e" then [] else ((a.str "comms").splitOn ";").map fun c =>
+        match c.splitOn "/" with
+        | [d, "-"] => { desc := parseStr d, text := [] }
+        | [d, x] => { desc := parseStr d, text := [parseStr x] }
+        | _ => { desc := [], text := [] }
+    let block := if a.str "block" "-" == "-" then none else some (a.bytes "block")
+    let tr := match a.nat "translate" 4 with | 0 => none | n => some n
+    "ok v=" ++ showTag 0 (Mutagen.Id3Load.loadedTag t comms (a.nat "vmaj" 4) block tr)
+  | "loadv1" =>
+    "ok v=" ++ showTag 0 (Mutagen.Id3Load.loadedTagV1 (a.bytes "block") (a.nat "v2" 4) (a.nat "translate" 1 == 1))
   | "stamp" => "ok v=" ++ showStampF (parseStamp (parseStr (a.str "text" "~"))) ++ " text=" ++ showStr (parseStamp (parseStr (a.str "text" "~"))).text
   | _ => "bad-op"
 
